@@ -6,14 +6,18 @@ import (
 	"encoding/json"
 	"fmt"
 	"io/fs"
+	"math/big"
 	"os"
 	"path/filepath"
+	"regexp"
 	"sort"
 	"strconv"
 	"strings"
 	"testing"
 	"time"
 
+	"github.com/AdguardTeam/AdGuardHome/internal/aghhttp"
+	"github.com/AdguardTeam/golibs/timeutil"
 	"gopkg.in/yaml.v3"
 )
 
@@ -183,6 +187,8 @@ func c18RandHalfMs(r *vfRand) int64 {
 		return 0
 	case 4:
 		return 24 * 60 * minute
+	case 5:
+		return int64(r.Intn(24*60+1))*minute + 1
 	default:
 		return int64(r.Intn(24*60+1)) * minute
 	}
@@ -235,6 +241,11 @@ func TestVerifC18(t *testing.T) {
 	out.Note("zones_used", len(use))
 
 	perZoneRandom := out.Scale(12, 60)
+	callers := c18Callers(zones)
+
+	// --- Contains, seed-independent prelude: the caller's location is on
+	// another weekday than the schedule's zone, and the two days differ ---
+	c18CallerPrelude(out)
 
 	// --- Contains ---
 	for _, zn := range use {
@@ -297,18 +308,31 @@ func TestVerifC18(t *testing.T) {
 					}
 				}
 			}
+			// The instant is handed over as a time.Time in some OTHER location:
+			// the weekday must be the one of the schedule's zone.
+			callerLoc, callerName := c18CallerLoc(rnd, loc, callers)
+			ct := ts.In(callerLoc)
+			cwd, swd := ct.Weekday(), lt.Weekday()
+			if cwd != swd && rnd.Chance(1, 2) {
+				// make the two weekdays disagree at this time of day
+				if rnd.Bool() {
+					days[swd], days[cwd] = dayRange{start: 0, end: maxDayRange}, dayRange{}
+				} else {
+					days[cwd], days[swd] = dayRange{start: 0, end: maxDayRange}, dayRange{}
+				}
+			}
 			w := &Weekly{location: loc, days: days}
-			obs := w.Contains(ts)
+			obs := w.Contains(ct)
 			_, off := lt.Zone()
 			y, m, d := lt.Date()
 			_, offMid := time.Date(y, m, d, 0, 0, 0, 0, loc).Zone()
 			dst := off != offMid
 			exp, perr := c18Expected(days, loc, ts)
 			c := vfCase{
-				Coq: vfApp("C18.CContains", vfZ(ts.UnixNano()), vfZ(int64(off)), c18CoqRanges(days), vfBool(obs)),
+				Coq:        vfApp("C18.CContains", vfZ(ts.UnixNano()), vfZ(int64(off)), c18CoqRanges(days), vfBool(obs)),
 				Nontrivial: dst || days[lt.Weekday()] != dayRange{},
 				MonitorOK:  perr == nil && exp == obs,
-				Desc: map[string]any{"kind": "contains", "zone": zn, "t": ts.UTC().Format(time.RFC3339Nano),
+				Desc: map[string]any{"kind": "contains", "zone": zn, "caller_zone": callerName, "t": ts.UTC().Format(time.RFC3339Nano),
 					"local": lt.Format("Mon 2006-01-02 15:04:05.999999999 -0700"),
 					"range": fmt.Sprintf("%s-%s", days[lt.Weekday()].start, days[lt.Weekday()].end), "contains": obs},
 			}
@@ -322,6 +346,15 @@ func TestVerifC18(t *testing.T) {
 			}
 			if days[lt.Weekday()] == (dayRange{start: 0, end: maxDayRange}) {
 				c.Classes = append(c.Classes, "full-day")
+			}
+			if cwd != swd {
+				h, mi, se := lt.Clock()
+				tod := time.Duration(h)*time.Hour + time.Duration(mi)*time.Minute + time.Duration(se)*time.Second + time.Duration(lt.Nanosecond())
+				other := days[cwd]
+				if other.contains(tod) != obs {
+					// the caller's weekday would have given the other answer
+					c.Classes = append(c.Classes, "caller-other-weekday")
+				}
 			}
 			if !c.MonitorOK {
 				c.MonitorMsg = fmt.Sprintf("Contains=%v but wall clock %s in range %v-%v is %v",
@@ -406,7 +439,7 @@ func TestVerifC18(t *testing.T) {
 			c := vfCase{
 				Coq:        vfApp("C18.CJson", vfList("option (Z * Z)", items), vfZ(code), vfList("option (Z * Z)", back)),
 				Nontrivial: true, MonitorOK: monOK, MonitorMsg: msg,
-				Classes: []string{"json-err-" + strconv.FormatInt(code%10, 10)},
+				Classes: []string{c18DocClass("json", code)},
 				Desc:    map[string]any{"kind": "json", "doc": sb.String(), "err": fmt.Sprint(err)},
 			}
 			if !monOK {
@@ -476,7 +509,7 @@ func TestVerifC18(t *testing.T) {
 			c := vfCase{
 				Coq:        vfApp("C18.CYaml", vfList("Z * Z", items), vfZ(code), vfList("Z * Z", back)),
 				Nontrivial: true, MonitorOK: monOK, MonitorMsg: msg,
-				Classes: []string{"yaml-err-" + strconv.FormatInt(code%10, 10)},
+				Classes: []string{c18DocClass("yaml", code)},
 				Desc:    map[string]any{"kind": "yaml", "doc": sb.String(), "err": fmt.Sprint(err)},
 			}
 			if !monOK {
@@ -485,5 +518,1012 @@ func TestVerifC18(t *testing.T) {
 			out.Emit(c)
 		}
 	}
+	c18TextCases(out, rnd)
 	_ = os.Stdout
+}
+
+func c18DocClass(form string, code int64) string {
+	switch {
+	case code == -1:
+		return form + "-ok"
+	case code >= 100:
+		return form + "-syntax-" + strconv.FormatInt(code-100, 10)
+	default:
+		return form + "-err-" + strconv.FormatInt(code%10, 10)
+	}
+}
+
+// --- the caller's location ---
+
+type c18Caller struct {
+	name string
+	loc  *time.Location
+}
+
+func c18Callers(zones []string) (cs []c18Caller) {
+	cs = []c18Caller{
+		{"UTC", time.UTC},
+		{"fixed+14", time.FixedZone("plus14", 14*3600)},
+		{"fixed-12", time.FixedZone("minus12", -12*3600)},
+		{"fixed+05:45", time.FixedZone("plus0545", 5*3600+45*60)},
+	}
+	for _, z := range []string{"Pacific/Kiritimati", "Pacific/Pago_Pago", "Asia/Tokyo", "America/Los_Angeles",
+		"Pacific/Chatham", "America/St_Johns", "Europe/Berlin", "Pacific/Apia"} {
+		if loc, err := time.LoadLocation(z); err == nil {
+			cs = append(cs, c18Caller{z, loc})
+		}
+	}
+	return cs
+}
+
+func c18CallerLoc(r *vfRand, own *time.Location, cs []c18Caller) (loc *time.Location, name string) {
+	if r.Chance(1, 4) {
+		return own, "same"
+	}
+	c := cs[r.Intn(len(cs))]
+	return c.loc, c.name
+}
+
+func c18EmitContains(out *vfOut, zn string, loc *time.Location, days [7]dayRange, ts time.Time, callerName string, extraClass string) {
+	w := &Weekly{location: loc, days: days}
+	obs := w.Contains(ts)
+	lt := ts.In(loc)
+	_, off := lt.Zone()
+	exp, perr := c18Expected(days, loc, ts)
+	c := vfCase{
+		Coq:        vfApp("C18.CContains", vfZ(ts.UnixNano()), vfZ(int64(off)), c18CoqRanges(days), vfBool(obs)),
+		Nontrivial: true,
+		MonitorOK:  perr == nil && exp == obs,
+		Desc: map[string]any{"kind": "contains", "zone": zn, "caller_zone": callerName, "t": ts.UTC().Format(time.RFC3339Nano),
+			"caller_local": ts.Format("Mon 2006-01-02 15:04:05.999999999 -0700"),
+			"local":        lt.Format("Mon 2006-01-02 15:04:05.999999999 -0700"),
+			"range":        fmt.Sprintf("%s-%s", days[lt.Weekday()].start, days[lt.Weekday()].end), "contains": obs},
+	}
+	if obs {
+		c.Classes = append(c.Classes, "contains-true")
+	} else {
+		c.Classes = append(c.Classes, "contains-false")
+	}
+	if extraClass != "" {
+		c.Classes = append(c.Classes, extraClass)
+	}
+	if !c.MonitorOK {
+		c.MonitorMsg = fmt.Sprintf("Contains=%v (instant handed over in %s) but wall clock %s in the schedule's zone, range %v-%v, is %v",
+			obs, callerName, lt.Format("Mon 15:04:05.999999999"), days[lt.Weekday()].start, days[lt.Weekday()].end, exp)
+		c.FindingKey = "contains-wallclock"
+	}
+	out.Emit(c)
+}
+
+// c18CallerPrelude: constructed instants at which the caller's location and
+// the schedule's zone are on different weekdays, with schedules whose ranges
+// on those two days give different answers.
+func c18CallerPrelude(out *vfOut) {
+	full := dayRange{start: 0, end: maxDayRange}
+	type pc struct {
+		zone, caller string
+		t            time.Time
+	}
+	cases := []pc{
+		// Tue 21:00 in New York = Wed 02:00 UTC = Wed 16:00 Kiritimati
+		{"America/New_York", "UTC", time.Date(2024, 3, 6, 2, 0, 0, 0, time.UTC)},
+		{"America/New_York", "Pacific/Kiritimati", time.Date(2024, 3, 6, 2, 0, 0, 0, time.UTC)},
+		// Thu 08:00 in Tokyo = Wed 23:00 UTC = Wed 12:00 Pago Pago
+		{"Asia/Tokyo", "UTC", time.Date(2024, 7, 10, 23, 0, 0, 0, time.UTC)},
+		{"Asia/Tokyo", "Pacific/Pago_Pago", time.Date(2024, 7, 10, 23, 0, 0, 0, time.UTC)},
+		// Sun 00:30 in Kiritimati = Sat 10:30 UTC = Fri 23:30 Pago Pago (two days apart)
+		{"Pacific/Kiritimati", "Pacific/Pago_Pago", time.Date(2025, 1, 4, 10, 30, 0, 0, time.UTC)},
+		{"UTC", "Pacific/Kiritimati", time.Date(2025, 1, 4, 10, 30, 0, 0, time.UTC)},
+		// week wrap: Sat 23:59:59.999999999 UTC = Sun in Berlin
+		{"UTC", "Europe/Berlin", time.Date(2025, 6, 7, 23, 59, 59, 999999999, time.UTC)},
+		{"Europe/Berlin", "UTC", time.Date(2025, 6, 7, 23, 59, 59, 999999999, time.UTC)},
+	}
+	for _, p := range cases {
+		loc, err := time.LoadLocation(p.zone)
+		cl, cerr := time.LoadLocation(p.caller)
+		if err != nil || cerr != nil {
+			continue
+		}
+		ct := p.t.In(cl)
+		swd, cwd := p.t.In(loc).Weekday(), ct.Weekday()
+		if swd == cwd {
+			continue
+		}
+		h, m, _ := p.t.In(loc).Clock()
+		tod := time.Duration(h)*time.Hour + time.Duration(m)*time.Minute
+		var a, b, c3 [7]dayRange
+		a[swd] = full // schedule's day full, caller's day empty: true
+		b[cwd] = full // caller's day full, schedule's day empty: false
+		// both non-empty: the schedule's day covers the time of day, the caller's day ends just before it
+		c3[swd] = dayRange{start: tod, end: tod + time.Minute}
+		if tod > 0 {
+			c3[cwd] = dayRange{start: 0, end: tod}
+		}
+		for _, days := range [][7]dayRange{a, b, c3} {
+			c18EmitContains(out, p.zone, loc, days, ct, p.caller, "caller-other-weekday")
+		}
+	}
+}
+
+// --- text syntax ---
+
+// c18Text captures what a decoder hands to a TextUnmarshaler.
+type c18Text struct {
+	s      string
+	called bool
+}
+
+func (c *c18Text) UnmarshalText(b []byte) error { c.s, c.called = string(b), true; return nil }
+
+// c18ParseObs runs timeutil.Duration.UnmarshalText.
+func c18ParseObs(s string) (code, val int64) {
+	var d timeutil.Duration
+	err := d.UnmarshalText([]byte(s))
+	if err == nil {
+		return 0, int64(d)
+	}
+	return c18DurErrKind(err.Error()), 0
+}
+
+func c18DurErrKind(msg string) int64 {
+	switch {
+	case strings.Contains(msg, "time: invalid duration"):
+		return 1
+	case strings.Contains(msg, "time: missing unit in duration"):
+		return 2
+	case strings.Contains(msg, "time: unknown unit"):
+		return 3
+	}
+	return -2
+}
+
+var c18FracRe = regexp.MustCompile(`\.([0-9]*)([^0-9.]*)`)
+
+var c18Units = map[string]int64{"ns": 1, "us": 1e3, "µs": 1e3, "μs": 1e3, "ms": 1e6, "s": 1e9, "m": 60e9, "h": 3600e9}
+
+// c18FracExact tells whether every fraction of the duration text is one on
+// which ParseDuration's float64 arithmetic is exact by construction: at most
+// 15 digits and the power of ten divides the unit (or the fraction is zero).
+// It does not look at what ParseDuration returned.
+func c18FracExact(s string) bool {
+	for _, m := range c18FracRe.FindAllStringSubmatch(s, -1) {
+		digits, unit := m[1], m[2]
+		if strings.Trim(digits, "0") == "" {
+			continue
+		}
+		if len(digits) > 15 {
+			return false
+		}
+		u, ok := c18Units[unit]
+		if !ok {
+			continue // unknown unit: the error is returned before the fraction is used
+		}
+		scale := int64(1)
+		for range digits {
+			scale *= 10
+		}
+		if u%scale != 0 {
+			return false
+		}
+	}
+	return true
+}
+
+func c18EmitDurText(out *vfOut, s, origin string) {
+	if !c18FracExact(s) {
+		out.Class("skipped-inexact-fraction")
+		return
+	}
+	code, val := c18ParseObs(s)
+	if code == -2 {
+		out.Class("skipped-unknown-error")
+		return
+	}
+	monOK, msg := true, ""
+	classes := []string{"dur-" + origin}
+	if code == 0 {
+		classes = append(classes, "dur-ok")
+		// property: what was read survives print + parse
+		back := timeutil.Duration(val).String()
+		var d2 timeutil.Duration
+		if err := d2.UnmarshalText([]byte(back)); err != nil || int64(d2) != val {
+			monOK, msg = false, fmt.Sprintf("%q parsed as %d, printed as %q, read back as %d (%v)", s, val, back, int64(d2), err)
+		}
+		if val < 0 {
+			classes = append(classes, "dur-neg")
+		}
+		if strings.Contains(s, ".") {
+			classes = append(classes, "dur-frac")
+		}
+		if strings.Contains(s, "µ") || strings.Contains(s, "μ") {
+			classes = append(classes, "dur-micro-sign")
+		}
+	} else {
+		classes = append(classes, "dur-err-"+strconv.FormatInt(code, 10))
+	}
+	if regexp.MustCompile(`[0-9]{18}`).MatchString(s) {
+		classes = append(classes, "dur-18-digits")
+	}
+	c := vfCase{
+		Coq:        vfApp("C18.CDurText", vfBytes(s), vfZ(code), vfZ(val)),
+		Nontrivial: true, MonitorOK: monOK, MonitorMsg: msg, Classes: classes,
+		Desc: map[string]any{"kind": "dur-text", "text": s, "code": code, "ns": val},
+	}
+	if !monOK {
+		c.FindingKey = "duration-text-roundtrip"
+	}
+	out.Emit(c)
+}
+
+func c18EmitDurPrint(out *vfOut, x int64) {
+	for _, cut := range []bool{true, false} {
+		var s string
+		if cut {
+			s = timeutil.Duration(x).String()
+		} else {
+			s = time.Duration(x).String()
+		}
+		classes := []string{}
+		u := x
+		if u < 0 {
+			u = -u
+			classes = append(classes, "print-neg")
+		}
+		switch {
+		case x == 0:
+			classes = append(classes, "print-zero")
+		case u > 0 && u < 1e3:
+			classes = append(classes, "print-ns")
+		case u > 0 && u < 1e6:
+			classes = append(classes, "print-us")
+		case u > 0 && u < 1e9:
+			classes = append(classes, "print-ms")
+		}
+		if cut {
+			switch len(time.Duration(x).String()) - len(s) {
+			case 2:
+				classes = append(classes, "print-cut-0s")
+			case 4:
+				classes = append(classes, "print-cut-0m0s")
+			default:
+				classes = append(classes, "print-uncut")
+			}
+		}
+		// property: print then parse is the identity (both printers)
+		monOK, msg := true, ""
+		var d2 timeutil.Duration
+		if err := d2.UnmarshalText([]byte(s)); err != nil || int64(d2) != x {
+			monOK, msg = false, fmt.Sprintf("%d ns printed as %q, read back as %d (%v)", x, s, int64(d2), err)
+		}
+		c := vfCase{
+			Coq:        vfApp("C18.CDurPrint", vfBool(cut), vfZ(x), vfBytes(s)),
+			Nontrivial: true, MonitorOK: monOK, MonitorMsg: msg, Classes: classes,
+			Desc: map[string]any{"kind": "dur-print", "ns": x, "cut": cut, "text": s},
+		}
+		if !monOK {
+			c.FindingKey = "duration-print-roundtrip"
+		}
+		out.Emit(c)
+	}
+	c18EmitDurText(out, timeutil.Duration(x).String(), "printed")
+}
+
+var c18MsPlain = regexp.MustCompile(`^[+-]?([0-9]*)(\.([0-9]*))?$`)
+
+// c18MsExact states the float64 assumption per input, without running the
+// code under test: the number text is a plain decimal num/10^k, and the
+// reference float path int64(ParseFloat(text) * 1e6), computed here, equals the
+// exact rational num/10^k * 10^6 truncated toward zero (and fits int64).
+// Texts that are not plain decimals must not contain anything ParseFloat gives
+// a meaning to (exponents, inf, nan, hex, underscores).
+func c18MsExact(s string) bool {
+	m := c18MsPlain.FindStringSubmatch(s)
+	if m == nil {
+		switch s {
+		case "null", "true", "false", `"60000"`, `"1h"`, "{}", "[]", `""`, "[60000]", `{"ms":1}`, "1h", "60000ms", " 1", "1 ", "1,5", "--1", "+-1", "1..2", "1.2.3":
+			return true
+		}
+		return false
+	}
+	digits := m[1] + m[3]
+	if digits == "" {
+		return true // no digits: a syntax error
+	}
+	if len(digits) > 40 {
+		return false
+	}
+	num, _ := new(big.Int).SetString(digits, 10)
+	den := new(big.Int).Exp(big.NewInt(10), big.NewInt(int64(len(m[3]))), nil)
+	p := new(big.Rat).Mul(new(big.Rat).SetFrac(num, den), big.NewRat(1000000, 1))
+	lim := new(big.Rat).SetInt(new(big.Int).Lsh(big.NewInt(1), 62))
+	if p.Cmp(lim) >= 0 {
+		return false
+	}
+	exact := new(big.Int).Quo(p.Num(), p.Denom()) // p >= 0: truncation
+	if strings.HasPrefix(s, "-") {
+		exact.Neg(exact)
+	}
+	v, err := strconv.ParseFloat(s, 64)
+	if err != nil {
+		return false
+	}
+	return exact.IsInt64() && int64(v*1e6) == exact.Int64()
+}
+
+func c18MsObs(s string) (code, val int64) {
+	var d aghhttp.JSONDuration
+	if err := d.UnmarshalJSON([]byte(s)); err != nil {
+		return 1, 0
+	}
+	return 0, int64(d)
+}
+
+func c18EmitMsText(out *vfOut, s string) {
+	if !c18MsExact(s) {
+		out.Class("skipped-inexact-ms")
+		return
+	}
+	code, val := c18MsObs(s)
+	classes := []string{"ms-ok"}
+	if code != 0 {
+		classes = []string{"ms-err"}
+	} else if strings.Contains(s, ".") {
+		classes = append(classes, "ms-frac")
+	}
+	out.Emit(vfCase{
+		Coq:        vfApp("C18.CMsText", vfBytes(s), vfZ(code), vfZ(val)),
+		Nontrivial: true, MonitorOK: true, Classes: classes,
+		Desc: map[string]any{"kind": "ms-text", "text": s, "code": code, "ns": val},
+	})
+}
+
+func c18EmitMsPrint(out *vfOut, x int64) {
+	b, _ := aghhttp.JSONDuration(x).MarshalJSON()
+	var d2 aghhttp.JSONDuration
+	err := d2.UnmarshalJSON(b)
+	monOK, msg := true, ""
+	// property: round trip (for values that are exact in float64: whole microseconds / 2^k fractions are not required; the harness emits |x| < 10^15)
+	if err != nil || (int64(d2) != x && x%500000 == 0) {
+		monOK, msg = false, fmt.Sprintf("%d ns printed as %s, read back as %d (%v)", x, b, int64(d2), err)
+	}
+	classes := []string{"ms-print"}
+	if x%1000000 != 0 {
+		classes = append(classes, "ms-print-frac")
+	}
+	c := vfCase{
+		Coq:        vfApp("C18.CMsPrint", vfZ(x), vfBytes(string(b))),
+		Nontrivial: true, MonitorOK: monOK, MonitorMsg: msg, Classes: classes,
+		Desc: map[string]any{"kind": "ms-print", "ns": x, "text": string(b)},
+	}
+	if !monOK {
+		c.FindingKey = "json-ms-roundtrip"
+	}
+	out.Emit(c)
+}
+
+// c18DurPrelude: seed-independent duration texts.
+var c18DurPrelude = []string{
+	"1h30m", "90m", "1.5h", "5400s", "+1h", "-1h", "1h30", "1d", "1H", ".5h", "0", "", "1h 30m",
+	"9223372036854775807ns", "9223372036854775808ns", "-9223372036854775808ns", "-9223372036854775809ns",
+	"2562048h", "2562047h", "2562047h47m16.854775807s", "2562047h47m16.854775808s", "-2562047h47m16.854775808s",
+	"0.5m", "1µs", "1μs", "1us", "1.5µs", "1.5μs", "1µ", "1μ", "1\xc2s", "1\xb5s", "24h", "24h0m0s", "23h59m", "1m", "0s", "0h", "0m",
+	"+0", "-0", "+", "-", ".", ".s", "1.s", "-.s", "+.5s", "00", "01h", "1h1h", "1m1h", "1ns1ns", "h", "s1", "1 h", " 1h", "1h ",
+	"1.0h", "1.000h", "0.000000000000001h", "1.00000000000000000000000001s", "0.9223372036854775808s", "0.9223372036854775807s",
+	"9223372036854775808ns9223372036854775808ns", "4611686018427387904ns4611686018427387904ns", "4611686018427387904ns4611686018427387903ns",
+	"9223372036s", "9223372037s", "9223372036.854775807s", "9223372036.854775808s", "153722867m", "153722868m", "9223372036854ms", "9223372036855ms",
+	"9223372036854775us", "9223372036854776us", "18446744073709551616ns", "922337203685477580ns", "9223372036854775800ns", "92233720368547758080ns",
+	"1e3s", "1_000s", "0x10s", "1hm", "1sm", "1ms1us1ns", "1.5ms", "1.234567ms", "1.5us", "1.001us", "3.6e3s", "1,5h", "１h", "1h\n", "1h\x00",
+	"30m0s", "1h0m", "1h0m0s", "0h30m", "60m", "1440m", "86400s", "1441m", "24h1m", "-30m", "30m30s", "1m0.5s", "0.25h", "0.75h", "0.1h", "0.01h",
+}
+
+var c18MsPrelude = []string{
+	"60000", "0", "-0", "0.5", "-0.5", "1.5", "86400000", "86400001", "86399999.5", "5400000", "-60000", "+60000",
+	"1.", ".5", "+.5", "-.5", ".", "", "-", "+", "1.25", "0.125", "0.75", "1.2.3", "1..2", "--1", "+-1", "1,5",
+	"null", "true", "false", `"60000"`, `"1h"`, "{}", "[]", `""`, "[60000]", `{"ms":1}`, "1h", "60000ms", " 1", "1 ",
+	"060000", "00", "0.0", "0.500000", "60000.000", "9223372036854", "4503599627370496", "0.000001", "0.0000005",
+	"120000.5", "60000.001", "60000.000001", "60000.999999", "86400000.5", "86400000.001", "86400000.000001", "86399999.999999",
+	"0.001", "0.999999", "3600000.001", "43200000.999999", "60000.0000005", "60000.1", "1.005", "0.0000019", "-60000.5", "-0.000001",
+}
+
+// c18SubMs are fractions of a millisecond appended to whole-minute values.
+var c18SubMs = []string{".5", ".001", ".000001", ".999999", ".25", ".125", ".0005", ".1", ".000999", ".5000", ".0000001"}
+
+// c18FracDocs: JSON documents whose numbers carry a sub-millisecond fraction
+// (seed-independent).
+var c18FracDocs = []string{
+	`{"time_zone":"UTC","mon":{"start":60000,"end":120000}}`,
+	`{"time_zone":"UTC","mon":{"start":60000,"end":120000.5}}`,
+	`{"time_zone":"UTC","mon":{"start":60000.001,"end":120000}}`,
+	`{"time_zone":"UTC","mon":{"start":60000.000001,"end":120000.999999}}`,
+	`{"time_zone":"UTC","mon":{"start":0.000001,"end":120000}}`,
+	`{"time_zone":"UTC","sun":{"start":0,"end":86400000}}`,
+	`{"time_zone":"UTC","sun":{"start":0,"end":86400000.5}}`,
+	`{"time_zone":"UTC","sun":{"start":0,"end":86400000.000001}}`,
+	`{"time_zone":"UTC","sat":{"start":86340000,"end":86400000.001}}`,
+	`{"time_zone":"UTC","sat":{"start":86340000.5,"end":86400000}}`,
+	`{"time_zone":"UTC","tue":{"start":60000.0,"end":120000.000}}`,
+	`{"time_zone":"UTC","tue":{"start":0.5,"end":0.5}}`,
+	`{"time_zone":"UTC","tue":{"start":0,"end":0.000001}}`,
+	`{"time_zone":"UTC","wed":{"start":3600000,"end":7200000.25}}`,
+}
+
+var c18DocFieldRe = regexp.MustCompile(`"(sun|mon|tue|wed|thu|fri|sat)":\{"start":([^,}]*),"end":([^,}]*)\}`)
+
+const c18MutAlphabet = "0123456789.hmsnuµμ+- dHeM"
+
+func c18Mutate(r *vfRand, s string) string {
+	b := []rune(s)
+	al := []rune(c18MutAlphabet)
+	n := 1 + r.Intn(2)
+	for i := 0; i < n; i++ {
+		switch r.Intn(6) {
+		case 0: // delete
+			if len(b) > 0 {
+				k := r.Intn(len(b))
+				b = append(b[:k:k], b[k+1:]...)
+			}
+		case 1: // insert
+			k := r.Intn(len(b) + 1)
+			b = append(b[:k:k], append([]rune{al[r.Intn(len(al))]}, b[k:]...)...)
+		case 2: // replace
+			if len(b) > 0 {
+				b[r.Intn(len(b))] = al[r.Intn(len(al))]
+			}
+		case 3: // duplicate a piece
+			if len(b) > 0 {
+				k := r.Intn(len(b))
+				l := k + 1 + r.Intn(len(b)-k)
+				b = append(b[:l:l], append(append([]rune{}, b[k:l]...), b[l:]...)...)
+			}
+		case 4: // swap neighbours
+			if len(b) > 1 {
+				k := r.Intn(len(b) - 1)
+				b[k], b[k+1] = b[k+1], b[k]
+			}
+		case 5: // truncate
+			if len(b) > 0 {
+				b = b[:r.Intn(len(b))]
+			}
+		}
+	}
+	return string(b)
+}
+
+// c18RandDur draws an int64 duration across the magnitudes the printer
+// distinguishes.
+func c18RandDur(r *vfRand) int64 {
+	var x int64
+	switch r.Intn(12) {
+	case 0:
+		x = r.Range(0, 999)
+	case 1:
+		x = r.Range(1000, 999999)
+	case 2:
+		x = r.Range(1000000, 999999999)
+	case 3:
+		x = r.Range(0, 1000) * 1000 * vfPick(r, []int64{1, 10, 100, 1000})
+	case 4:
+		x = r.Range(0, 200000) * 1e9
+	case 5:
+		x = r.Range(0, 3000) * 60e9
+	case 6:
+		x = r.Range(0, 100) * 3600e9
+	case 7:
+		x = r.Range(0, 1<<62) * 2
+	case 8:
+		x = r.Range(0, 90000)*1e9 + r.Range(0, 999)*1e6
+	case 9:
+		x = r.Range(0, 2562047)*3600e9 + r.Range(0, 59)*60e9
+	case 10:
+		x = 1<<63 - 1 - r.Range(0, 2000000000)
+	default:
+		x = r.Range(0, 1440) * 60e9
+	}
+	if r.Chance(1, 4) {
+		x = -x
+	}
+	return x
+}
+
+// c18RandFieldText draws the text of one start/end field of a YAML document.
+func c18RandFieldText(r *vfRand, valid bool) string {
+	m := int64(r.Intn(24*60 + 1))
+	if valid || r.Chance(1, 2) {
+		d := time.Duration(m) * time.Minute
+		switch r.Intn(8) {
+		case 0:
+			return strconv.FormatInt(m, 10) + "m"
+		case 1:
+			return strconv.FormatInt(m*60, 10) + "s"
+		case 2:
+			return d.String() // uncut Go form
+		case 3:
+			if m%6 == 0 {
+				return strconv.FormatFloat(float64(m)/60, 'f', -1, 64) + "h"
+			}
+			return timeutil.Duration(d).String()
+		case 4:
+			return "+" + timeutil.Duration(d).String()
+		default:
+			return timeutil.Duration(d).String()
+		}
+	}
+	switch r.Intn(8) {
+	case 0:
+		return c18Mutate(r, timeutil.Duration(time.Duration(m)*time.Minute).String())
+	case 1:
+		return timeutil.Duration(time.Duration(m)*time.Minute + time.Duration(r.Range(1, 59))*time.Second).String()
+	case 2:
+		return "-" + timeutil.Duration(time.Duration(m)*time.Minute).String()
+	case 3:
+		return timeutil.Duration(24*time.Hour + time.Duration(r.Range(1, 600))*time.Minute).String()
+	case 4:
+		return vfPick(r, c18DurPrelude)
+	case 5:
+		return strconv.FormatInt(m, 10) // missing unit
+	case 6:
+		return strconv.FormatFloat(float64(m)+0.5, 'f', -1, 64) + "m"
+	default:
+		return timeutil.Duration(time.Duration(r.Range(1, 86400e9))).String()
+	}
+}
+
+func c18YAMLScalar(r *vfRand, s string) string {
+	plain := regexp.MustCompile(`^[0-9a-zA-Z.+µμ][0-9a-zA-Z.+µμ-]*$`)
+	if plain.MatchString(s) && r.Chance(2, 3) {
+		return s
+	}
+	if !strings.ContainsAny(s, "'\n\x00") && s != "" && r.Bool() {
+		return "'" + s + "'"
+	}
+	return strconv.Quote(s)
+}
+
+type c18Field struct {
+	day   int
+	isEnd bool
+	text  string
+}
+
+func c18CoqFields(fs []c18Field) string {
+	items := make([]string, len(fs))
+	for i, f := range fs {
+		items[i] = "(" + vfNat(f.day) + ", " + vfBool(f.isEnd) + ", " + vfBytes(f.text) + ")"
+	}
+	return vfList("field", items)
+}
+
+func c18CoqDays(w *Weekly) string {
+	return c18CoqRanges(w.days)
+}
+
+func c18CoqBack(back [7]*[2]string) string {
+	items := make([]string, 7)
+	for i, b := range back {
+		if b == nil {
+			items[i] = vfOpt("bytes * bytes", false, "")
+		} else {
+			items[i] = vfOpt("bytes * bytes", true, vfPair(vfBytes(b[0]), vfBytes(b[1])))
+		}
+	}
+	return vfList("text_day", items)
+}
+
+// c18YAMLFields reads the duration texts yaml.v3 hands to a TextUnmarshaler,
+// in document order.
+func c18YAMLFields(doc []byte) (fs []c18Field, ok bool) {
+	var root yaml.Node
+	if err := yaml.Unmarshal(doc, &root); err != nil || len(root.Content) != 1 || root.Content[0].Kind != yaml.MappingNode {
+		return nil, false
+	}
+	m := root.Content[0]
+	for i := 0; i+1 < len(m.Content); i += 2 {
+		day := -1
+		for d, k := range c18DayKeys {
+			if m.Content[i].Value == k {
+				day = d
+			}
+		}
+		if day < 0 {
+			continue
+		}
+		v := m.Content[i+1]
+		if v.Kind != yaml.MappingNode {
+			return nil, false
+		}
+		for j := 0; j+1 < len(v.Content); j += 2 {
+			key := v.Content[j].Value
+			if key != "start" && key != "end" {
+				continue
+			}
+			if v.Content[j+1].Kind != yaml.ScalarNode {
+				return nil, false
+			}
+			var ct c18Text
+			if err := v.Content[j+1].Decode(&ct); err != nil {
+				return nil, false
+			}
+			if ct.called {
+				fs = append(fs, c18Field{day: day, isEnd: key == "end", text: ct.s})
+			}
+		}
+	}
+	return fs, true
+}
+
+func c18TextErrCode(err error) int64 {
+	if err == nil {
+		return -1
+	}
+	if c := c18ErrCode(err); c != -2 {
+		return c
+	}
+	if k := c18DurErrKind(err.Error()); k > 0 {
+		return 100 + k
+	}
+	if strings.Contains(err.Error(), "parsing json time") {
+		return 101
+	}
+	return -2
+}
+
+func c18TextCases(out *vfOut, rnd *vfRand) {
+	// --- single duration texts ---
+	for _, s := range c18DurPrelude {
+		c18EmitDurText(out, s, "prelude")
+	}
+	for _, x := range []int64{0, 1, -1, 999, 1000, 1001, 999999, 1000000, 1500000, 999999999, 1e9, 1500000000, 59e9, 60e9, 61e9,
+		3599e9, 3600e9, 3601e9, 3660e9, 5400e9, 86400e9, 86460e9, 360000e9, -60e9, -3600e9, -5400e9, -1500, 1<<63 - 1, -1 << 63, -1<<63 + 1} {
+		c18EmitDurPrint(out, x)
+	}
+	for m := int64(0); m <= 1440; m += int64(out.Scale(7, 1)) {
+		c18EmitDurPrint(out, m*60e9)
+	}
+	nDur := out.Scale(500, 6000)
+	for i := 0; i < nDur; i++ {
+		x := c18RandDur(rnd)
+		c18EmitDurPrint(out, x)
+		s := timeutil.Duration(x).String()
+		c18EmitDurText(out, c18Mutate(rnd, s), "mutated")
+		if rnd.Chance(1, 3) {
+			c18EmitDurText(out, c18Mutate(rnd, vfPick(rnd, c18DurPrelude)), "mutated")
+		}
+		if rnd.Chance(1, 3) {
+			// concatenations and alternative spellings
+			y := c18RandDur(rnd)
+			c18EmitDurText(out, s+strings.TrimPrefix(timeutil.Duration(y).String(), "-"), "concat")
+			c18EmitDurText(out, strconv.FormatInt(rnd.Range(0, 1<<62)*2+rnd.Range(0, 3), 10)+vfPick(rnd, []string{"ns", "us", "µs", "μs", "ms", "s", "m", "h"}), "int-unit")
+			c18EmitDurText(out, strconv.FormatInt(rnd.Range(0, 3000), 10)+"."+strconv.FormatInt(rnd.Range(0, 999999999), 10)+vfPick(rnd, []string{"ns", "us", "µs", "ms", "s", "m", "h"}), "frac-unit")
+		}
+	}
+
+	// --- millisecond number texts ---
+	for _, s := range c18MsPrelude {
+		c18EmitMsText(out, s)
+	}
+	for _, x := range []int64{0, 60e9, -60e9, 500000, -500000, 1500000, 86400e9, 1, -1, 1234567, 999999, 1000000, 999999999999999, -999999999999999, 5400e9, 250000, 125000} {
+		c18EmitMsPrint(out, x)
+	}
+	nMs := out.Scale(300, 4000)
+	for i := 0; i < nMs; i++ {
+		var x int64
+		switch rnd.Intn(5) {
+		case 0:
+			x = rnd.Range(0, 1440) * 60e9
+		case 1:
+			x = rnd.Range(0, 200000000) * 500000
+		case 2:
+			x = rnd.Range(0, 999999999999999)
+		case 3:
+			x = rnd.Range(0, 100000000) * 1000000
+		default:
+			x = rnd.Range(0, 99999999) * 125000
+		}
+		if rnd.Chance(1, 4) {
+			x = -x
+		}
+		c18EmitMsPrint(out, x)
+		b, _ := aghhttp.JSONDuration(x).MarshalJSON()
+		c18EmitMsText(out, string(b))
+		m := c18Mutate(rnd, string(b))
+		if strings.Trim(m, "+-.0123456789") == "" {
+			c18EmitMsText(out, m)
+		}
+		c18EmitMsText(out, strconv.FormatInt(rnd.Range(0, 1440)*60000, 10)+vfPick(rnd, c18SubMs))
+	}
+
+	// --- documents as texts ---
+	nDocs := out.Scale(250, 3000)
+	for i := 0; i < nDocs; i++ {
+		valid := rnd.Chance(1, 2)
+		// YAML
+		{
+			order := []int{0, 1, 2, 3, 4, 5, 6}
+			if rnd.Chance(1, 4) {
+				vfShuffle(rnd, order)
+			}
+			var sb strings.Builder
+			if rnd.Bool() {
+				sb.WriteString("time_zone: Asia/Tokyo\n")
+			}
+			for _, d := range order {
+				if rnd.Chance(1, 4) {
+					continue
+				}
+				var st, en string
+				if valid {
+					dr := c18RandRange(rnd)
+					st, en = timeutil.Duration(dr.start).String(), timeutil.Duration(dr.end).String()
+					if rnd.Chance(1, 3) {
+						st, en = c18RandFieldText(rnd, true), c18RandFieldText(rnd, true)
+					}
+				} else {
+					st, en = c18RandFieldText(rnd, false), c18RandFieldText(rnd, rnd.Bool())
+				}
+				lines := []string{"  start: " + c18YAMLScalar(rnd, st) + "\n", "  end: " + c18YAMLScalar(rnd, en) + "\n"}
+				switch rnd.Intn(10) {
+				case 0:
+					lines[0], lines[1] = lines[1], lines[0]
+				case 1:
+					lines = lines[:1]
+				case 2:
+					lines = lines[1:]
+				}
+				sb.WriteString(c18DayKeys[d] + ":\n" + strings.Join(lines, ""))
+			}
+			if !strings.Contains(sb.String(), "time_zone") {
+				sb.WriteString("time_zone: UTC\n")
+			}
+			c18EmitYAMLDoc(out, sb.String())
+		}
+		// JSON
+		{
+			order := []int{0, 1, 2, 3, 4, 5, 6}
+			if rnd.Chance(1, 4) {
+				vfShuffle(rnd, order)
+			}
+			var fs []c18Field
+			parts := []string{`"time_zone":"Europe/Berlin"`}
+			for _, d := range order {
+				if rnd.Chance(1, 4) {
+					continue
+				}
+				var st, en string
+				if valid {
+					dr := c18RandRange(rnd)
+					bs, _ := aghhttp.JSONDuration(dr.start).MarshalJSON()
+					be, _ := aghhttp.JSONDuration(dr.end).MarshalJSON()
+					st, en = string(bs), string(be)
+				} else {
+					st, en = c18HalfMsJSON(c18RandHalfMs(rnd)), c18HalfMsJSON(c18RandHalfMs(rnd))
+					if rnd.Chance(1, 2) {
+						// an otherwise valid whole-minute range with a fraction of a millisecond on one bound
+						dr := c18RandRange(rnd)
+						if dr == (dayRange{}) || rnd.Chance(1, 5) {
+							dr = dayRange{start: 0, end: maxDayRange}
+						}
+						st, en = strconv.FormatInt(dr.start.Milliseconds(), 10), strconv.FormatInt(dr.end.Milliseconds(), 10)
+						if rnd.Bool() {
+							st += vfPick(rnd, c18SubMs)
+						} else {
+							en += vfPick(rnd, c18SubMs)
+						}
+					} else if rnd.Chance(1, 6) {
+						st = vfPick(rnd, []string{"null", "true", `"60000"`, `"1h"`, "{}", "[]", "0.25", "1.75", "-0", "60000.0", "0.500"})
+					}
+					if rnd.Chance(1, 6) {
+						en = vfPick(rnd, []string{"null", "false", `""`, "[60000]", `{"ms":1}`, "86400000.0", "86400000.5", "0.125"})
+					}
+				}
+				f := []c18Field{{d, false, st}, {d, true, en}}
+				items := []string{`"start":` + st, `"end":` + en}
+				switch rnd.Intn(10) {
+				case 0:
+					f[0], f[1] = f[1], f[0]
+					items[0], items[1] = items[1], items[0]
+				case 1:
+					f, items = f[:1], items[:1]
+				case 2:
+					f, items = f[1:], items[1:]
+				}
+				fs = append(fs, f...)
+				parts = append(parts, fmt.Sprintf("%q:{%s}", c18DayKeys[d], strings.Join(items, ",")))
+				if rnd.Chance(1, 15) {
+					// the same day once more: encoding/json overwrites only the fields given
+					st2 := c18HalfMsJSON(c18RandHalfMs(rnd))
+					fs = append(fs, c18Field{d, false, st2})
+					parts = append(parts, fmt.Sprintf("%q:{\"start\":%s}", c18DayKeys[d], st2))
+				}
+			}
+			if rnd.Bool() {
+				parts = append(parts[1:], parts[0])
+			}
+			c18EmitJSONDoc(out, "{"+strings.Join(parts, ",")+"}", fs)
+		}
+	}
+	for _, doc := range c18FracDocs {
+		var fs []c18Field
+		for _, m := range c18DocFieldRe.FindAllStringSubmatch(doc, -1) {
+			fs = append(fs, c18Field{c18Weekdays[strings.ToUpper(m[1][:1])+m[1][1:]], false, m[2]}, c18Field{c18Weekdays[strings.ToUpper(m[1][:1])+m[1][1:]], true, m[3]})
+		}
+		c18EmitJSONDoc(out, doc, fs)
+	}
+	// constructed documents, seed-independent
+	for _, doc := range []string{
+		"time_zone: UTC\nmon:\n  start: 1h30m\n  end: 2h\n",
+		"time_zone: UTC\nmon:\n  start: 90m\n  end: 1.5h\n",
+		"time_zone: UTC\nmon:\n  start: 0.5m\n  end: 2h\n",
+		"time_zone: UTC\nmon:\n  start: 1h\n  end: 1h30\n",
+		"time_zone: UTC\nmon:\n  start: 1h\n  end: 1d\n",
+		"time_zone: UTC\nmon:\n  start: \"\"\n  end: 1h\n",
+		"time_zone: UTC\nmon:\n  start:\n  end: 1h\n",
+		"time_zone: UTC\nmon:\n  start: ~\n  end: 1h\n",
+		"time_zone: UTC\nmon:\n  start: 0\n  end: 24h\n",
+		"time_zone: UTC\nmon:\n  start: 0\n  end: 24h0m0.000000001s\n",
+		"time_zone: UTC\nsat:\n  start: 1h\n  end: bad\nsun:\n  start: -1h\n  end: 2h\n",
+		"time_zone: UTC\nsat:\n  end: 2h\n  start: 1h\nsun:\n  end: 1h\n  start: 2h\n",
+		"time_zone: UTC\ntue:\n  start: +1h\n  end: 7200s\n",
+		"time_zone: UTC\ntue:\n  start: 1µs\n  end: 1h\n",
+		"time_zone: UTC\ntue:\n  start: 60000000µs\n  end: 120000000μs\n",
+		"time_zone: UTC\ntue:\n  start: 9223372036854775808ns\n  end: 1h\n",
+		"time_zone: UTC\ntue:\n  start: 9223372036854775808ns9223372036854775808ns\n  end: 1h\n",
+	} {
+		c18EmitYAMLDoc(out, doc)
+	}
+}
+
+func c18EmitYAMLDoc(out *vfOut, doc string) {
+	fs, ok := c18YAMLFields([]byte(doc))
+	if !ok {
+		out.Class("skipped-yaml-shape")
+		return
+	}
+	for _, f := range fs {
+		if !c18FracExact(f.text) {
+			out.Class("skipped-inexact-fraction")
+			return
+		}
+	}
+	w := &Weekly{}
+	err := yaml.Unmarshal([]byte(doc), w)
+	code := c18TextErrCode(err)
+	if code == -2 {
+		out.Class("skipped-yaml-other-error")
+		return
+	}
+	monOK, msg := true, ""
+	var back [7]*[2]string
+	days := "(@nil (Z * Z))"
+	if err == nil {
+		days = c18CoqDays(w)
+		b, merr := yaml.Marshal(w)
+		if merr != nil {
+			monOK, msg = false, "re-marshal failed"
+		}
+		bfs, bok := c18YAMLFields(b)
+		if !bok {
+			monOK, msg = false, "re-marshalled document has an unexpected shape"
+		}
+		for _, f := range bfs {
+			if back[f.day] == nil {
+				back[f.day] = &[2]string{}
+			}
+			if f.isEnd {
+				back[f.day][1] = f.text
+			} else {
+				back[f.day][0] = f.text
+			}
+		}
+		w2 := &Weekly{}
+		if uerr := yaml.Unmarshal(b, w2); uerr != nil || w2.days != w.days || w2.location.String() != w.location.String() {
+			monOK, msg = false, "YAML round trip changed the schedule"
+		}
+		if bad := c18InvalidAccepted(w); bad != "" {
+			monOK, msg = false, bad
+		}
+	}
+	c := vfCase{
+		Coq:        vfApp("C18.CYamlText", c18CoqFields(fs), vfZ(code), days, c18CoqBack(back)),
+		Nontrivial: true, MonitorOK: monOK, MonitorMsg: msg,
+		Classes: []string{c18DocClass("yamltext", code)},
+		Desc:    map[string]any{"kind": "yaml-text", "doc": doc, "err": fmt.Sprint(err)},
+	}
+	if !monOK {
+		c.FindingKey = "yaml-" + msg
+	}
+	out.Emit(c)
+}
+
+func c18EmitJSONDoc(out *vfOut, doc string, fs []c18Field) {
+	for _, f := range fs {
+		if !c18MsExact(f.text) {
+			out.Class("skipped-inexact-ms")
+			return
+		}
+	}
+	// the texts really are what the decoder sees
+	var raw map[string]json.RawMessage
+	if json.Unmarshal([]byte(doc), &raw) != nil {
+		out.Class("skipped-json-invalid")
+		return
+	}
+	w := &Weekly{}
+	err := json.Unmarshal([]byte(doc), w)
+	code := c18TextErrCode(err)
+	if code == -2 {
+		out.Class("skipped-json-other-error")
+		return
+	}
+	monOK, msg := true, ""
+	var back [7]*[2]string
+	days := "(@nil (Z * Z))"
+	if err == nil {
+		days = c18CoqDays(w)
+		b, merr := json.Marshal(w)
+		var m map[string]map[string]json.RawMessage
+		if merr != nil {
+			monOK, msg = false, "re-marshal failed"
+		} else {
+			var top map[string]json.RawMessage
+			_ = json.Unmarshal(b, &top)
+			m = map[string]map[string]json.RawMessage{}
+			for _, k := range c18DayKeys {
+				if rawDay, ok := top[k]; ok {
+					var dm map[string]json.RawMessage
+					_ = json.Unmarshal(rawDay, &dm)
+					m[k] = dm
+				}
+			}
+		}
+		for d, k := range c18DayKeys {
+			if dm, ok := m[k]; ok {
+				back[d] = &[2]string{string(dm["start"]), string(dm["end"])}
+			}
+		}
+		w2 := &Weekly{}
+		if uerr := json.Unmarshal(b, w2); uerr != nil || w2.days != w.days || w2.location.String() != w.location.String() {
+			monOK, msg = false, "JSON round trip changed the schedule"
+		}
+		if bad := c18InvalidAccepted(w); bad != "" {
+			monOK, msg = false, bad
+		}
+		// the rejection clause on the document itself: every number that ends
+		// up in a range is a whole number of minutes (exact decimal value)
+		last := map[[2]int]string{}
+		for _, f := range fs {
+			k := 0
+			if f.isEnd {
+				k = 1
+			}
+			last[[2]int{f.day, k}] = f.text
+		}
+		for _, txt := range last {
+			m := c18MsPlain.FindStringSubmatch(txt)
+			if m == nil || m[1]+m[3] == "" {
+				continue
+			}
+			num, _ := new(big.Int).SetString(m[1]+m[3], 10)
+			den := new(big.Int).Exp(big.NewInt(10), big.NewInt(int64(len(m[3]))), nil)
+			q := new(big.Rat).Quo(new(big.Rat).SetFrac(num, den), big.NewRat(60000, 1))
+			if !q.IsInt() {
+				monOK, msg = false, "number that is not a whole number of minutes accepted"
+			}
+		}
+	}
+	c := vfCase{
+		Coq:        vfApp("C18.CJsonText", c18CoqFields(fs), vfZ(code), days, c18CoqBack(back)),
+		Nontrivial: true, MonitorOK: monOK, MonitorMsg: msg,
+		Classes: []string{c18DocClass("jsontext", code)},
+		Desc:    map[string]any{"kind": "json-text", "doc": doc, "err": fmt.Sprint(err)},
+	}
+	for _, f := range fs {
+		if i := strings.IndexByte(f.text, '.'); i >= 0 && c18MsPlain.MatchString(f.text) && strings.Trim(f.text[i+1:], "0") != "" {
+			c.Classes = append(c.Classes, "jsontext-sub-ms-fraction")
+			break
+		}
+	}
+	if !monOK {
+		c.FindingKey = "json-" + msg
+	}
+	out.Emit(c)
 }
